@@ -53,13 +53,14 @@ Definition convert_annotation (a : pyann) : aval :=
   | AnnText text parsed => match parsed with Some x => x | None => AStr text end
   end.
 
-(* the default of an inspect.Parameter: empty, an object with a __name__ attribute (whatever it holds), anything else (repr) *)
-Inductive pydefault := DEmpty | DNamed (name_attr : aval) | DOther (repr : string).
+(* the default of an inspect.Parameter: empty, an object whose __name__ is a string (that string), anything else (its repr) --
+   since fix 5db8f3a a __name__ that is not a string is no longer taken *)
+Inductive pydefault := DEmpty | DNamed (name : string) | DOther (repr : string).
 
 Definition inspect_default (kind : string) (d : pydefault) : aval :=
   if String.eqb kind "VAR_POSITIONAL" then AStr "()"
   else if String.eqb kind "VAR_KEYWORD" then AStr "{}"
-  else match d with DEmpty => ANone | DNamed n => n | DOther r => AStr r end.
+  else match d with DEmpty => ANone | DNamed n => AStr n | DOther r => AStr r end.
 
 Record sig_param := mkSig { sp_name : string; sp_kind : string; sp_annotation : pyann; sp_default : pydefault }.
 
@@ -128,11 +129,9 @@ Definition arguments_src_ok (a : ast_arguments) : bool :=
   forallb arg_src_ok (posonlyargs a) && forallb arg_src_ok (args a) && optarg_src_ok (vararg a)
   && forallb arg_src_ok (kwonlyargs a) && optarg_src_ok (kwarg a).
 
-(* the inspector's known gap, as a predicate on what it is given: a default whose __name__ is not a string (C09-F8) *)
-Definition default_src_ok (kind : string) (d : pydefault) : bool := aval_ok (inspect_default kind d).
 Definition ann_src_ok (a : pyann) : bool := aval_ok (convert_annotation a).
 Definition sig_src_ok (p : sig_param) : bool :=
-  str_in (sp_kind p) inspect_kinds && ann_src_ok (sp_annotation p) && default_src_ok (sp_kind p) (sp_default p).
+  str_in (sp_kind p) inspect_kinds && ann_src_ok (sp_annotation p).
 
 (* a parser instantiates a section class with a value of that class's shape *)
 Definition ssection_src_ok (s : ssection) : bool :=
@@ -199,7 +198,7 @@ Definition pyann_of (s : sexp) : option pyann :=
 Definition pydefault_of (s : sexp) : option pydefault :=
   match s with
   | SList [SStr "empty"] => Some DEmpty
-  | SList [SStr "named"; n] => option_map DNamed (aval_of n)
+  | SList [SStr "named"; SStr n] => Some (DNamed n)
   | SList [SStr "other"; SStr r] => Some (DOther r)
   | _ => None
   end.
